@@ -194,7 +194,7 @@ def flavours(tier):
     fl = [F(3, "ecdhe_rsa"), F(4, "tls13"), F(3, "rsa"), F(1, "dhe_rsa"), F(4, "tls13", hrr=True), F(3, "ecdhe_rsa", resume="id"),
           F(0, "rsa"), F(3, "ecdhe_rsa", ticket=True, resume="ticket"), F(4, "tls13", resume="psk", tickets13=1),
           F(3, "srp_sha"), F(3, "ecdhe_ecdsa", reqCert="cert"), F(2, "dhe_dsa"), F(3, "ecdhe_rsa", ticket=True, npn=True)]
-    return fl[:6] if tier == "quick" else fl
+    return fl
 
 
 def scenario(fi, f):
